@@ -25,6 +25,7 @@ type concIn struct {
 	Calls      int    `json:"calls"`
 	Seed       int64  `json:"seed"`
 	Comp       int    `json:"comp"`
+	CutTail    bool   `json:"cuttail"` // concrio: the file is cut inside its last record before the readers start (reads of it must fail, all others stay exact)
 }
 
 func init() { register("concsst", runConcSST); register("concrio", runConcRIO) }
@@ -178,7 +179,7 @@ func runConcRIO(args []string) error {
 	for i := 0; i < in.NKeys; i++ {
 		var rec []byte
 		tk := fmt.Sprintf("r%d", i)
-		if rng0.Intn(15) == 0 {
+		if rng0.Intn(15) == 0 && !(in.CutTail && i == in.NKeys-1) {
 			rec, tk = nil, "NIL"
 		} else {
 			rec = payload(i)
@@ -195,6 +196,13 @@ func runConcRIO(args []string) error {
 	st, _ := os.Stat(path)
 	tr.emit(M{"t": "w", "op": "close", "rec": "", "j": 0, "off": 0, "size": int(st.Size()), "target": 0, "err": "", "dio": false})
 	_ = size
+	seekLimit := int(st.Size()) + 2
+	if in.CutTail && len(offs) >= 2 {
+		if err := os.Truncate(path, st.Size()-5); err != nil {
+			return err
+		}
+		seekLimit = int(offs[len(offs)-2]) // SeekNext probes stay in front of the cut record
+	}
 	mr, err := recordio.NewMemoryMappedReaderWithPath(path)
 	if err != nil {
 		return err
@@ -247,9 +255,13 @@ func runConcRIO(args []string) error {
 					} else {
 						r = name(b, offs[i])
 					}
-					local = append(local, M{"t": "at", "i": i + 1, "off": int(offs[i]), "r": r})
+					kind := "at"
+					if in.CutTail && i == len(offs)-1 {
+						kind = "atcut"
+					}
+					local = append(local, M{"t": kind, "i": i + 1, "off": int(offs[i]), "r": r})
 				} else {
-					from := rng.Intn(int(st.Size()) + 2)
+					from := rng.Intn(seekLimit)
 					roff, b, err := mr.SeekNext(uint64(from))
 					r := ""
 					if err != nil {
